@@ -31,9 +31,21 @@ var c12plan = msgsPlan{
 	InflightPts: []string{"open-v1"},
 	InflightCats: map[string]bool{"proposal": true, "proposal-c12": true, "update": true, "vfund": true, "vsettle": true,
 		"sync": true, "response": true},
-	ThoroughPoints: []string{"hub-fund", "hub-fund2", "hub-settle", "hub-settle2"},
+	ThoroughPoints: []string{"hub-fund", "hub-fund2", "hub-settle", "hub-settle2", "hub-fund-quiet", "hub-settle-quiet"},
 	ThoroughCats:   map[string]bool{"hubfund": true, "hubsettle": true},
+	// the victim as hub, B silent: M's own well-formed funding / settlement proposal finds no partner
+	GapQuick: []gapFamily{
+		{"hub-fund-quiet", []string{"hubfund/valid"}},
+		{"hub-settle-quiet", []string{"hubsettle/valid"}},
+	},
+	GapThorough: []gapFamily{
+		{"hub-fund-quiet", hubFundGapSet}, {"hub-fund", hubFundGapSet},
+		{"hub-settle-quiet", hubSettleGapSet}, {"hub-settle", hubSettleGapSet},
+	},
 }
+
+var hubFundGapSet = []string{"hubfund/valid", "hubfund/debit-hub-all", "hubfund/idxmap-both-hub", "hubfund/initial-sig-missing", "hubfund/update-sig-garbage"}
+var hubSettleGapSet = []string{"hubsettle/valid", "hubsettle/credit-swapped", "hubsettle/final-is-initial-state", "hubsettle/final-sig-missing", "hubsettle/update-sig-garbage"}
 
 func c12check(ssc schedrun.Scenario, s *vsched.Sched, o any) []schedrun.Verdict {
 	obs := o.(*msgsObs)
@@ -67,6 +79,9 @@ func c08rejCheck(ssc schedrun.Scenario, s *vsched.Sched, o any) []schedrun.Verdi
 	for _, it := range obs.Items {
 		if it.NA || it.NotExpr != "" {
 			continue
+		}
+		if it.Neutral {
+			continue // the statement does not decide whether this one must be dropped (counted in the digest)
 		}
 		bad := it.Mut || !it.Control // a mutated proposal, or a well-formed one that does not fit the victim's situation
 		switch {
